@@ -7,6 +7,21 @@ DIRECTED = [
      [{'all': True, 'check': 'ALL', 'batch': ['s1', 's2', 's3', 's4', 's5', 's6']}]),
     ('ec', 'all-curves', {'s1': 'healthy224', 's2': 'healthy521', 's3': 'healthyk1', 's4': 'healthybp256', 's5': 'healthybp384', 's6': 'healthybp512'},
      [{'all': True, 'check': 'ALL', 'batch': ['s1', 's2', 's3', 's4', 's5', 's6']}]),
+    # healthy artifacts BEHIND weak ones and behind artifacts of another curve (result entries and per-curve indices are per artifact)
+    ('rsa', 'behind-nm1-pair', {'s1': 'healthy', 's2': 'nm1A', 's3': 'nm1B', 's4': 'healthy', 's5': 'healthy3072'},
+     [{'all': False, 'check': 'CheckGCDN1', 'batch': ['s1', 's2', 's3', 's4', 's5']}, {'all': True, 'check': 'ALL', 'batch': ['s2', 's3', 's4', 's5', 's1']}]),
+    ('rsa', 'behind-shared-pair', {'s1': 'healthy', 's2': 'sharedA', 's3': 'sharedB', 's4': 'healthy', 's5': 'healthy3072'},
+     [{'all': False, 'check': 'CheckGCD', 'batch': ['s1', 's2', 's3', 's4', 's5']}, {'all': True, 'check': 'ALL', 'batch': ['s2', 's3', 's4', 's5', 's1']}]),
+    ('rsa', 'behind-each-weak-family', {'s1': 'small', 's2': 'healthy', 's3': 'fermat', 's4': 'healthy3072', 's5': 'exponent', 's6': 'healthy'},
+     [{'all': True, 'check': 'ALL', 'batch': ['s1', 's2', 's3', 's4', 's5', 's6']}]),
+    ('ec', 'behind-close-pair', {'s1': 'healthy', 's2': 'closeA', 's3': 'closeB', 's4': 'healthy', 's5': 'healthy384', 's6': 'weakprivate'},
+     [{'all': False, 'check': 'CheckECKeySmallDifference', 'batch': ['s1', 's2', 's3', 's4', 's5']},
+      {'all': False, 'check': 'CheckWeakECPrivateKey', 'batch': ['s6', 's1', 's5', 's4']},
+      {'all': True, 'check': 'ALL', 'batch': ['s5', 's6', 's2', 's3', 's4', 's1']}]),
+    ('ecdsa', 'behind-other-curve-and-weak', {'s1': 'healthyk1', 's2': 'healthyA', 's3': 'msbA', 's4': 'healthyB', 's5': 'healthy384'},
+     [{'all': False, 'check': 'CheckNonceMSB', 'batch': ['s1', 's2', 's3']},
+      {'all': True, 'check': 'ALL', 'batch': ['s5', 's1', 's2', 's3', 's4']},
+      {'all': False, 'check': 'CheckNonceCommonPrefix', 'batch': ['s1', 's3', 's2', 's4']}]),
     ('ecdsa', 'mixed', {'s1': 'healthyA', 's2': 'msbA', 's3': 'healthy384', 's4': 'healthyB'},
      [{'all': True, 'check': 'ALL', 'batch': ['s1', 's2', 's3', 's4']}]),
 ]
